@@ -43,6 +43,27 @@ impl Def {
         self.context.check(symbol_table)?;
         self.ret_ty.check(&Some(self.span), symbol_table)?;
 
+        // the entry point is called by the runtime with integer arguments and its result is the
+        // exit code of the program
+        if self.name == "main" {
+            for binding in &self.context.bindings {
+                if binding.chi != Chirality::Prd || binding.ty != Ty::mk_i64() {
+                    return Err(Error::Mismatch {
+                        span: self.span,
+                        expected: "i64 (parameter of main)".to_string(),
+                        got: binding.print_to_string(None),
+                    });
+                }
+            }
+            if self.ret_ty != Ty::mk_i64() {
+                return Err(Error::Mismatch {
+                    span: self.span,
+                    expected: "i64 (return type of main)".to_string(),
+                    got: self.ret_ty.print_to_string(None),
+                });
+            }
+        }
+
         self.body = self.body.check(symbol_table, &self.context, &self.ret_ty)?;
 
         Ok(self)
